@@ -746,6 +746,7 @@ package throttle
 //@     set gnow := r
 //@   callee Load() (r)
 //@     requires wl
+//@     requires l.curGen == gnow
 //@     pure
 //@     set gl := r
 //@     set nload := nload + 1
